@@ -9,6 +9,45 @@ TB = ("rustc (nightly 1.97) parsing, macro expansion, type checking and MIR cons
       "hand-written oracle tables under spec/ (each entry carries its reason)")
 
 CLAIMS = {
+    "C02": {
+        "technique": "static analysis: table agreement between parser arms, decoder methods and assembler arms (syntax-tree extraction), interval interpretation of from_u32, pinned snapshot",
+        "text": "Decides the codec pairing for all 70 operand kinds, 64 Operand variants, every typed decoder method and every enumerant/bit parameter list: "
+                "each (kind, variant, decoder method) triple has matching payload types and mutually inverse encodings, the five special kinds are intercepted, "
+                "instruction framing order/word count, string and 64-bit word layout. Structural necessary conditions of parse(assemble(x)) == x; the value equality itself is not computed.",
+        "design_ref": "DESIGN.md 3/C02", "note": TB + "; bitflags from_bits/bits; std from_le_bytes/from_utf8",
+    },
+    "C05": {
+        "technique": "static analysis: abstract interpretation of Loader::consume_instruction/finalize over 787 opcodes x 4 typestates, symbolic evaluation of the opcode predicates",
+        "text": "Extracts the loader's complete transition/outcome table by abstract interpretation (every opcode in every (function open, block open) state; guards resolved by evaluating "
+                "grammar::reflect symbolically) and compares it with the reference automaton of the property statement; also reachability of the bad state, absence of failing unwraps in "
+                "reachable states, single move of the instruction. Exhaustive at the abstraction the statement uses.",
+        "design_ref": "DESIGN.md 3/C05, B.2", "note": TB + "; the reference automaton and opcode classes are transcribed by hand from the statement / SPIR-V spec",
+    },
+    "C09": {
+        "technique": "static analysis: table rules over all rows of the expanded instruction tables, normalised lookup-closure shape, pinned snapshot",
+        "text": "Bijection between table rows and opcode enum variants (so lookup over all 65536 numbers is decided by the equality shape of the six lookup functions), well-formedness "
+                "of all 1030 rows, equality of kinds/quantifiers/capabilities/extensions with the pinned snapshot, and the table facts other checks rely on.",
+        "design_ref": "DESIGN.md 3/C09", "note": TB + "; O-SNAP stands in for the Khronos JSON grammar, which is not in the sandbox",
+    },
+    "C15": {
+        "technique": "static analysis: sequence extraction from iterator chains and assemble_into statement lists, compared with each other and the logical layout",
+        "text": "The six traversal methods and four assemble_into impls are normalised to field-path sequences and must coincide, cover every instruction-typed field and follow the logical layout; "
+                "mutable twins differ only in mutability. The property is about code shape and is decided in full.",
+        "design_ref": "DESIGN.md 3/C15", "note": TB + "; Iterator::chain/flat_map semantics",
+    },
+    "C16": {
+        "technique": "static analysis: symbolic evaluation of every opcode predicate into an explicit set over all 787 opcodes, compared with specification classes; Builder who-ends-the-block rule",
+        "text": "Each predicate is evaluated to its exact opcode set and compared with required/allowed class sets (spec tables cross-checked with the Builder's class-partitioned files); "
+                "derived predicates must equal the stated unions, base classes be disjoint, and the Builder end the block for exactly the terminator opcodes. Exhaustive over opcodes x predicates.",
+        "design_ref": "DESIGN.md 3/C16, B.1", "note": TB + "; O-SPEC class tables transcribed from the SPIR-V specification",
+    },
+    "C17": {
+        "technique": "static analysis: table extraction from match arms of the reflection functions, joined with the parser's parameter tables and the pinned snapshot",
+        "text": "additional_operands is compared enumerant-by-enumerant / bit-by-bit with what parse_*_arguments consumes (through the parser's own kind->variant table) and with the snapshot; "
+                "required capabilities/extensions with the snapshot; id_ref_any[_mut], From<T>, unwrap_* by shape for all variants. Value-level round trips are not computed.",
+        "design_ref": "DESIGN.md 3/C17", "note": TB + "; O-SNAP for capabilities/extensions (single in-repo projection)",
+    },
+
     "C08": {
         "technique": "static analysis: interval interpretation of every from_u32 over all 2^32 inputs, MIR transmute/unsafe census, "
                      "FromStr/alias/bitflags table rules, pinned grammar snapshot",
